@@ -88,16 +88,40 @@ class Ctx:
             self.log("OBLIGATION FAILED: %s %s" % (name, detail[:300]))
 
     def regen(self):
-        """T-gen: regenerate Gen/*.lean from /repo. Returns list of broken items."""
+        """T-gen: regenerate the raw Lean definitions (namespace TsGenRaw, lean/TsVerif/GenRaw) from
+        /repo's current source and re-check the TIE: every regenerated definition is proved equal
+        (lean/TsVerif/Common/GenTie.lean: rfl / grind / case analysis) to the canonical definition
+        (namespace TsGen, lean/TsVerif/Gen, frozen) that all models and theorems are written against.
+        A semantics-preserving rewrite of the C code keeps the tie; a semantic change, or code that
+        leaves the translated subset, breaks it (failed obligation).  Returns the broken items."""
         status = os.path.join(self.workdir, "gen_status.json")
-        rc, out = sh([sys.executable, os.path.join(ROOT, "translator", "c2lean.py"), "--repo", REPO,
-                      "--out", os.path.join(LEAN, "TsVerif", "Gen"), "--status", status])
+        rc, out = sh([sys.executable, os.path.join(ROOT, "translator", "c2lean.py"), "--repo", REPO, "--raw",
+                      "--out", os.path.join(LEAN, "TsVerif", "GenRaw"), "--status", status])
         st = json.load(open(status)) if os.path.exists(status) else {"items": [], "broken": [{"name": "translator", "error": out}]}
         self.gen_status = st
         for it in st["broken"]:
             self.oblige("tie:gen:" + it["name"], False, it.get("error", ""))
         self.coverage["generated_items"] = len(st["items"])
         self.coverage["unguarded_subtractions"] = st.get("subsites", [])
+        # the tie proofs
+        ok, out, failed = self.lake_build(["TsVerif.Common.GenTie"])
+        names = audit_names(os.path.join(LEAN, "TsVerif", "Common", "GenTieAudit.lean"))
+        if ok:
+            rc, aout = sh(["lake", "env", "lean", "TsVerif/Common/GenTieAudit.lean"], cwd=LEAN, timeout=1200)
+            axioms = parse_axioms(aout)
+            bad = [n for n in names if n not in axioms or set(axioms[n]) - ALLOWED_AXIOMS]
+            self.oblige("tie:regenerated-definitions=canonical-definitions(%d tie theorems)" % len(names), not bad,
+                        "not proved from accepted axioms: " + ", ".join(bad)[:300])
+        else:
+            broken = sorted(set(f.split(" ")[0] for f in failed))
+            self.oblige("tie:regenerated-definitions=canonical-definitions(%d tie theorems)" % len(names), False,
+                        "no longer provable: " + ", ".join(broken)[:400])
+            for b in broken[:6]:
+                self.violation("tie", "the definition regenerated from /repo is no longer provably equal to the canonical "
+                               "definition the theorems are about: " + b,
+                               {"tie_theorem": b, "file": "lean/TsVerif/Common/GenTie.lean",
+                                "regenerated": "lean/TsVerif/GenRaw", "canonical": "lean/TsVerif/Gen"}, found_input=False)
+        self.coverage["tie_theorems"] = len(names)
         return st["broken"]
 
     def lake_build(self, targets):
@@ -307,6 +331,8 @@ class Ctx:
         for k in self.known_hits:
             print("KNOWN-FINDING: property=%s %s" % (self.prop, k["what"]))
         code = 0
+        # concrete failing inputs first: the first replay files should be replayable inputs
+        self.violations.sort(key=lambda v: 0 if v["found_input"] else 1)
         for i, v in enumerate(self.violations[:5]):
             path = os.path.join(ROOT, "replay", "%s-%d-%d.json" % (self.prop, self.seed, i))
             json.dump({"property": self.prop, "seed": self.seed, "tier": self.tier, "kind": v["kind"],
@@ -328,7 +354,7 @@ def locate_decl(path, line):
     except OSError:
         return "?"
     for i in range(min(line, len(lines)) - 1, -1, -1):
-        m = re.match(r"\s*(?:private\s+|protected\s+)?(?:theorem|lemma|def|example|instance)\s+([\w\.']+)?", lines[i])
+        m = re.match(r"\s*(?:@\[[^\]]*\]\s*)?(?:private\s+|protected\s+)?(?:theorem|lemma|def|example|instance)\s+([\w\.']+)?", lines[i])
         if m:
             return m.group(1) or "example"
     return "?"
